@@ -240,12 +240,13 @@ class ParserModel:
                         self.phase_stores.append((f, n, k))
                     elif vch and vch[-1] == "originalPhase":
                         self.phase_stores.append((f, n, "<originalPhase>"))
-                    elif isinstance(v, ast.Name) and v.id == "new_phase" and f.name == "resetInsertionMode":
+                    elif isinstance(v, ast.Name) and f.name == "resetInsertionMode" and self._is_phase_local(f, v.id):
+                        NP = v.id         # the local that collects the new phase (whatever it is called)
                         env = self.ce.local_env(f.node, f.module)
                         nm = None
                         # the mapping used in `new_phase = self.phases[<mapping>[...]]` (a local or module-level constant)
                         for a in ast.walk(f.node):
-                            if isinstance(a, ast.Assign) and any(isinstance(x, ast.Name) and x.id == "new_phase" for x in a.targets) \
+                            if isinstance(a, ast.Assign) and any(isinstance(x, ast.Name) and x.id == NP for x in a.targets) \
                                     and isinstance(a.value, ast.Subscript) and isinstance(a.value.slice, ast.Subscript) \
                                     and isinstance(a.value.slice.value, ast.Name):
                                 try:
@@ -257,7 +258,7 @@ class ParserModel:
                         self.new_modes = nm
                         keys |= set(nm.values())
                         for a in ast.walk(f.node):
-                            if isinstance(a, ast.Assign) and any(isinstance(x, ast.Name) and x.id == "new_phase" for x in a.targets):
+                            if isinstance(a, ast.Assign) and any(isinstance(x, ast.Name) and x.id == NP for x in a.targets):
                                 c = attr_chain(a.value)
                                 if c and c[-1].startswith("phases["):
                                     keys.add(c[-1][len('phases["'):-2])
@@ -267,6 +268,13 @@ class ParserModel:
         if others:
             raise AnalysisError("unrecognised store to parser.phase: %s" % others[:3])
         self.assignable_keys = keys
+
+    @staticmethod
+    def _is_phase_local(f: FuncInfo, name: str) -> bool:
+        """every store to the local `name` is None or an element of self.phases"""
+        vals = [a.value for a in ast.walk(f.node) if isinstance(a, ast.Assign) and any(isinstance(x, ast.Name) and x.id == name for x in a.targets)]
+        return bool(vals) and all((isinstance(v, ast.Constant) and v.value is None) or
+                                  (isinstance(v, ast.Subscript) and norm(v.value) == "self.phases") for v in vals)
 
     # ------------------------------------------------------------ receiver types
     def self_type(self, func: FuncInfo):
